@@ -80,7 +80,12 @@ func (r *responseStorer) StoreResponse(
 		ReceivedAt:  respTime,
 		ID:          responseID,
 	}
-	_ = r.cache.Set(responseID, respEntry)
+	// A response that could not be stored (its body failed, or the store did)
+	// gets no record in the index either: the record would name an entry that
+	// does not exist, or an older one left under the same key.
+	if err := r.cache.Set(responseID, respEntry); err != nil {
+		return err
+	}
 
 	switch {
 	case refs == nil:
